@@ -77,7 +77,7 @@ Qed.
 
 Lemma dspacing_from_tof_exact t st L sL th sth dt dL dth :
   t > 0 -> st > 0 -> L > 0 -> sL > 0 -> sth > 0 -> 0 < th * sth <= PI ->
-  is_num dt = true -> is_num dL = true -> is_float dth = true ->
+  is_num dt = true -> is_num dL = true -> is_num dth = true ->
   is_qty h mn (dspacing_from_tof O (tv t st d_s dt) (tv L sL d_m dL) (tv th sth d_rad dth))
          (d_tof h mn (t * st) (L * sL) (th * sth)) angstrom d_m (fdt dt).
 Proof using Hh Hm.
@@ -87,7 +87,7 @@ Qed.
 
 Lemma Q_from_wavelength_exact l sl th sth dl dth :
   l > 0 -> sl > 0 -> sth > 0 -> 0 < th * sth <= PI ->
-  is_float dl = true -> is_float dth = true ->
+  is_float dl = true -> is_num dth = true ->
   is_qty h mn (Q_from_wavelength O (tv l sl d_m dl) (tv th sth d_rad dth))
          (Q_lam (l * sl) (th * sth)) (1 / sl) d_invm (fdt dl).
 Proof using Hh Hm.
@@ -97,7 +97,7 @@ Qed.
 
 Lemma wavelength_from_Q_exact q sq th sth dq dth :
   q > 0 -> sq > 0 -> sth > 0 -> 0 < th * sth <= PI ->
-  is_float dq = true -> is_float dth = true ->
+  is_float dq = true -> is_num dth = true ->
   is_qty h mn (wavelength_from_Q O (tv q sq d_invm dq) (tv th sth d_rad dth))
          (lam_Q (q * sq) (th * sth)) angstrom d_m (fdt dq).
 Proof using Hh Hm.
@@ -107,7 +107,7 @@ Qed.
 
 Lemma dspacing_from_wavelength_exact l sl th sth dl dth :
   l > 0 -> sl > 0 -> sth > 0 -> 0 < th * sth <= PI ->
-  is_float dl = true -> is_float dth = true ->
+  is_float dl = true -> is_num dth = true ->
   is_qty h mn (dspacing_from_wavelength O (tv l sl d_m dl) (tv th sth d_rad dth))
          (d_lam (l * sl) (th * sth)) angstrom d_m (fdt dl).
 Proof using Hh Hm.
@@ -133,7 +133,7 @@ Qed.
 
 Lemma dspacing_from_energy_exact E sE th sth dE dth :
   E > 0 -> sE > 0 -> sth > 0 -> 0 < th * sth <= PI ->
-  is_float dE = true -> is_float dth = true ->
+  is_float dE = true -> is_num dth = true ->
   is_qty h mn (dspacing_from_energy O (tv E sE d_J dE) (tv th sth d_rad dth))
          (d_E h mn (E * sE) (th * sth)) angstrom d_m (fdt dE).
 Proof using Hh Hm.
@@ -208,7 +208,7 @@ Qed.
 (* tof -> wavelength -> dspacing  ==  tof -> dspacing *)
 Lemma route_tof_wavelength_dspacing t st L sL th sth dt dL dth :
   t > 0 -> st > 0 -> L > 0 -> sL > 0 -> sth > 0 -> 0 < th * sth <= PI ->
-  is_num dt = true -> is_num dL = true -> is_float dth = true ->
+  is_num dt = true -> is_num dL = true -> is_num dth = true ->
   is_qty h mn (dspacing_from_wavelength O (wavelength_from_tof O (tv t st d_s dt) (tv L sL d_m dL))
                                         (tv th sth d_rad dth))
          (d_tof h mn (t * st) (L * sL) (th * sth)) angstrom d_m (fdt dt).
@@ -228,7 +228,7 @@ Qed.
 
 (* energy -> wavelength -> dspacing  ==  energy -> dspacing *)
 Lemma route_energy_wavelength_dspacing E sE th sth dE dth :
-  E > 0 -> sE > 0 -> sth > 0 -> 0 < th * sth <= PI -> is_float dE = true -> is_float dth = true ->
+  E > 0 -> sE > 0 -> sth > 0 -> 0 < th * sth <= PI -> is_float dE = true -> is_num dth = true ->
   is_qty h mn (dspacing_from_wavelength O (wavelength_from_energy O (tv E sE d_J dE)) (tv th sth d_rad dth))
          (d_E h mn (E * sE) (th * sth)) angstrom d_m (fdt dE).
 Proof using Hh Hm.
@@ -285,7 +285,7 @@ Qed.
 
 (* wavelength -> Q -> wavelength *)
 Lemma roundtrip_wavelength_Q l sl th sth dl dth :
-  l > 0 -> sl > 0 -> sth > 0 -> 0 < th * sth <= PI -> is_float dl = true -> is_float dth = true ->
+  l > 0 -> sl > 0 -> sth > 0 -> 0 < th * sth <= PI -> is_float dl = true -> is_num dth = true ->
   is_qty h mn (wavelength_from_Q O (Q_from_wavelength O (tv l sl d_m dl) (tv th sth d_rad dth))
                                  (tv th sth d_rad dth))
          (l * sl) angstrom d_m (fdt dl).
@@ -306,7 +306,7 @@ Qed.
 
 (* Q * d = 2 pi for the same wavelength and angle *)
 Lemma Q_times_dspacing l sl th sth dl dth :
-  l > 0 -> sl > 0 -> sth > 0 -> 0 < th * sth <= PI -> is_float dl = true -> is_float dth = true ->
+  l > 0 -> sl > 0 -> sth > 0 -> 0 < th * sth <= PI -> is_float dl = true -> is_num dth = true ->
   exists q d,
     is_qty h mn (Q_from_wavelength O (tv l sl d_m dl) (tv th sth d_rad dth)) q (1 / sl) d_invm (fdt dl)
     /\ is_qty h mn (dspacing_from_wavelength O (tv l sl d_m dl) (tv th sth d_rad dth)) d angstrom d_m (fdt dl)
